@@ -1,7 +1,7 @@
 #!/bin/bash
 # runs every claimed check's quick (or $1) tier sequentially; prints rc and wall time per property
 tier=${1:-quick}
-cd /verif
+cd ${VERIF_DIR:-/verif}
 for p in $(python3 -c "import json;print(' '.join(c['property_id'] for c in json.load(open('MANIFEST.json'))['checks']))"); do
   s=$(date +%s)
   ./check $p --tier $tier > /var/tmp/runall_$p.log 2>&1
@@ -12,7 +12,7 @@ done
 python3-vt - <<'PY'
 import json,jsonschema,glob
 sch=json.load(open('/root/.vp/EVIDENCE.schema.json'))
-for f in sorted(glob.glob('/verif/evidence/*.json')):
+for f in sorted(glob.glob('evidence/*.json')):
     try:
         jsonschema.validate(json.load(open(f)),sch); print('evidence ok', f)
     except Exception as e: print('EVIDENCE INVALID', f, str(e)[:200])
